@@ -640,6 +640,101 @@ mod imp {
         }
     }
 
+    // ------------------------------------------------------------------ whole programs with their own oracle ("script" mode)
+    /// Programs that the event model does not describe (captured locals, nested lambdas, imports, the WHOLE-PROGRAM
+    /// optimizer of `aelys run`): generated from parameterised shapes together with the tag sequence the property requires;
+    /// run as a script (run_program_script), as files with an import (run_file_with_config_and_opt) or as two REPL inputs.
+    pub fn script_case(seed: u64, opt: u32) -> CaseOut {
+        let mut r = Rng::new(seed ^ 0x5c21_97);
+        let mut tagn = 10u64;
+        let mut tag = |t: &mut u64| { *t += 1; *t };
+        let names = ["op", "relay", "pick", "conv", "emit"];
+        let nm = names[r.below(names.len() as u64) as usize].to_string();
+        let shape = r.below(4);
+        let budget = 3_000_000u64;
+        let mut expected: Vec<u64> = Vec::new();
+        let src: String;
+        let out: Outcome;
+        let leaf = |n: &str, t: u64| format!("fn {}(x) {{ return \"{}\" }}", n, tag_text(t));
+        let lam = |t: u64| format!("fn(x) {{ return \"{}\" }}", tag_text(t));
+        if shape == 0 || shape == 1 {
+            // (a) one name for a global function and for a local / parameter of an enclosing function that closures capture and
+            // call; the captured one is reassigned between calls.  shape 1: the global comes from an earlier REPL input
+            let (ta, tb, tc, td) = (tag(&mut tagn), tag(&mut tagn), tag(&mut tagn), tag(&mut tagn));
+            let global = match r.below(3) { 0 => leaf(&nm, ta), 1 => format!("let mut {} = {}", nm, lam(ta)), _ => format!("let {} = {}", nm, lam(ta)) };
+            let mut defs = String::new();
+            defs.push_str(&format!("fn make() {{\n    let {} = {}\n    return fn(x) {{ return {}(x) }}\n}}\n", nm, lam(tb), nm));
+            defs.push_str(&format!("fn make_rebound() {{\n    let mut {} = {}\n    let call = fn(x) {{ return {}(x) }}\n    {} = {}\n    return call\n}}\n", nm, lam(tb), nm, nm, lam(tc)));
+            defs.push_str(&format!("fn with_param({}) {{\n    return fn(x) {{ return {}(x) }}\n}}\n", nm, nm));
+            defs.push_str(&format!("fn twice() {{\n    let mut {} = {}\n    let call = fn(x) {{ return {}(x) }}\n    println(call(-2.5))\n    {} = {}\n    println(call(-2.5))\n    return call\n}}\n", nm, lam(tb), nm, nm, lam(tc)));
+            defs.push_str(&format!("let h = make()\nlet k = make_rebound()\nlet p = with_param({})\n", lam(td)));
+            let mut calls = String::new();
+            let n = 3 + r.below(5);
+            for _ in 0..n {
+                match r.below(5) {
+                    0 => { calls.push_str(&format!("println({}(-2.5))\n", nm)); expected.push(ta); }
+                    1 => { calls.push_str("println(h(-2.5))\n"); expected.push(tb); }
+                    2 => { calls.push_str("println(k(-2.5))\n"); expected.push(tc); }
+                    3 => { calls.push_str("println(p(-2.5))\n"); expected.push(td); }
+                    _ => { calls.push_str("let w = twice()\nprintln(w(-2.5))\n"); expected.extend([tb, tc, tc]); }
+                }
+            }
+            if shape == 0 {
+                src = format!("{}\n{}{}", global, defs, calls);
+                out = run_program_script(&src, opt, (0, 0), budget, None).0;
+            } else {
+                let mut vm = aelys_driver::new_vm_with_config(Default::default(), Vec::new()).unwrap();
+                let a = run_on_vm(&mut vm, &format!("{}\n", global), opt.min(1), budget);
+                let b = run_on_vm(&mut vm, &format!("{}{}", defs, calls), opt.min(1), budget);
+                src = format!("{}\n=====\n{}{}", global, defs, calls);
+                out = Outcome { class: if a.class == "ok" { b.class.clone() } else { a.class.clone() }, output: format!("{}{}", a.output, b.output), value: String::new(), detail: format!("{}{}", a.detail, b.detail) };
+            }
+        } else if shape == 2 {
+            // (b) a name bound by an import; a caller declared first and called BEFORE and AFTER the name is redefined by a
+            // trivial function further down, after effectful statements, with padding declarations in between
+            let (ta, tb) = (tag(&mut tagn), tag(&mut tagn));
+            let dir = std::env::temp_dir().join(format!("hx_cc_{}_{}", std::process::id(), seed));
+            let _ = std::fs::create_dir_all(&dir);
+            let _ = std::fs::write(dir.join("utils.aelys"), format!("pub {}\n", leaf(&nm, ta)));
+            let mut m = format!("needs {} from utils\n", nm);
+            for i in 0..r.below(2) { m.push_str(&format!("let early{} = {}\n", i, i)); }
+            m.push_str(&format!("fn show(x) {{ return {}(x) }}\n", nm));
+            let before = 1 + r.below(2);
+            for _ in 0..before { m.push_str("println(show(-2.5))\n"); expected.push(ta); }
+            for i in 0..r.below(3) { m.push_str(&format!("let mid{} = {}\n", i, i)); }
+            m.push_str(&format!("{}\n", leaf(&nm, tb)));
+            for i in 0..r.below(4) { if r.chance(1, 2) { m.push_str(&format!("let pad{} = {}\n", i, i)); } else { m.push_str(&format!("fn padf{}(x) {{ return x }}\n", i)); } }
+            let after = 1 + r.below(2);
+            for _ in 0..after { m.push_str("println(show(-2.5))\n"); expected.push(tb); }
+            if r.chance(1, 2) { m.push_str(&format!("println({}(-2.5))\n", nm)); expected.push(tb); }
+            let path = dir.join("main.aelys");
+            let _ = std::fs::write(&path, &m);
+            src = format!("// utils.aelys: pub {}\n{}", leaf(&nm, ta), m);
+            aelys_runtime::verif::sink_install();
+            aelys_runtime::verif::budget_set(budget);
+            let res = guarded(std::panic::AssertUnwindSafe(|| {
+                let v = aelys_driver::run_file_with_config_and_opt(&path, Default::default(), Vec::new(), opt_level(opt))?;
+                Ok((v, String::new()))
+            }));
+            let o = aelys_runtime::verif::sink_take();
+            aelys_runtime::verif::budget_set(u64::MAX);
+            out = classify(res, o);
+            let _ = std::fs::remove_dir_all(&dir);
+        } else {
+            // (c) a capturing closure in a global that itself creates nested lambdas, called several times from ONE site
+            let (ta, tb) = (tag(&mut tagn), tag(&mut tagn));
+            let n = 3 + r.below(4);
+            let inner = if r.chance(1, 2) { "let g = fn(y) { return y + 1 }".to_string() } else { "fn g(y) { return y + 1 }".to_string() };
+            src = format!("fn make() {{\n    let mut c = 0\n    return fn(x) {{\n        c += 1\n        {}\n        if g(c) == c + 1 {{ return \"{}\" }}\n        return \"{}\"\n    }}\n}}\nlet {}{} = make()\nfor i in 0..{} {{ println({}(i)) }}\n",
+                         inner, tag_text(ta), tag_text(tb), if r.chance(1, 2) { "mut " } else { "" }, nm, n, nm);
+            for _ in 0..n { expected.push(ta); }
+            out = run_program_script(&src, opt, (0, 0), budget, None).0;
+        }
+        let st = status_of(&out.class);
+        CaseOut { query: "[]".into(), observed: format!("[{}]", obs_term(st, &parse_output(&out.output))), spec: format!("[{}]", obs_term(0, &expected)),
+                  source: src, problems: vec![], kinds: vec![], ncalls: expected.len() }
+    }
+
     pub struct CaseOut { pub query: String, pub observed: String, pub spec: String, pub source: String, pub problems: Vec<String>, pub kinds: Vec<&'static str>, pub ncalls: usize }
 
     pub fn run_case(mode: &str, seed: u64, opt: u32) -> CaseOut {
@@ -832,10 +927,10 @@ fn main() {
             // 50% REPL sessions, 30% single programs, 20% save/reload
             // above OptimizationLevel::Basic every input is optimised as a whole program: no multi-input sessions there
             // (the REPL compiles at Basic), single programs and save/reload only
-            let mode = if opt >= 2 { match i % 10 { 0..=5 => "unit", _ => "reload" } } else { match i % 10 { 0..=4 => "repl", 5..=7 => "unit", _ => "reload" } };
+            let mode = if opt >= 2 { match i % 10 { 0..=3 => "unit", 4..=6 => "reload", _ => "script" } } else { match i % 10 { 0..=3 => "repl", 4..=5 => "unit", 6..=7 => "reload", _ => "script" } };
             let case_seed = seed.wrapping_mul(1_000_003).wrapping_add(i);
             let o = if i % 7 == 3 { 0 } else { opt };
-            let c = imp::run_case(mode, case_seed, o);
+            let c = if mode == "script" { imp::script_case(case_seed, o) } else { imp::run_case(mode, case_seed, o) };
             println!("CASE\t{}\t{}\t{}\t{}\t{}\t{}\t{}\t{}\t{}", mode, case_seed, c.query, c.observed, c.spec, esc(&c.source),
                      esc(&c.problems.join(" | ")), c.kinds.join(","), c.ncalls);
         }
